@@ -30,3 +30,33 @@ claim("C16", "static analysis: lock-set must-dataflow per method, global-store s
 claim("C18", "static analysis: must-dataflow dominance of the ban lookup over directive creation and file access; reject-only use of the option's set; option-closure aliasing",
       "Every creation site of a directive and every file-system call of core is dominated by a bannedDirectives lookup (created kind / INCLUDE) whose found branch returns the error (B2); every read of the set is reject-only, which is a sufficient argument that a project without banned kinds is processed exactly as without the option (NI); option closures store no captured map/slice into the core (OP1). The diagnostic text is a constant.",
       TB, "DESIGN.md §4 C18")
+claim("C04", "static analysis: table extraction and coverage rules over the typed AST (kinds vs handlers, model fields vs serialisers, scanner keyword trie vs directive table)",
+      "Necessary conditions of catalog faithfulness: every directive kind has a consumer (K1), every field of the catalog model is serialised or tagged (M1), collections keep and serialise source order (D4), the spellable keyword set equals the directive table (K2), interactions are stored under the id they were built from (ID1), serialisation switches are total (X1). Equality of the catalog with a model of the document is not decided.",
+      TB, "DESIGN.md §4 C04")
+claim("C06", "static analysis: who-may-write rules for the directive tree, CFG dominance for the parenthesis protocol, VTA reachability of the resolver from both phases",
+      "Decides the structural part: one resolver links parents and is the only place that inserts into the tree, used by both the scan and the paste-expansion phase (R1); the parenthesis protocol is wired end to end and the scan stage cannot succeed with an open explicit context (R2); '(' / ')' without a directive are diagnostics (N1); total lexeme dispatch (X1). The walk that picks the nearest admitting ancestor is not decided.",
+      TB, "DESIGN.md §4 C06")
+claim("C07", "static analysis: SCC termination analysis on the VTA call graph, must-dataflow guards for the macro table",
+      "Decides that macro expansion is guarded against every cycle (T1 on the expansion SCC), duplicate macro names are refused (H1), a pasted macro was found (MP1), pasted children go through the same resolver (R1), MACRO/PASTE never reach the catalog builder (K1). Equality with the inlined document is not decided.",
+      TB, "DESIGN.md §4 C07")
+claim("C08", "static analysis: who-may-call rule for file-system access plus value-derivation of the path argument on the CFG",
+      "Confinement by construction: the only file-system calls are behind INCLUDE (and the caller-supplied root); the path is Join(Dir(current file), p) with p the value the validator accepted, and ReadFile gets the path Stat accepted (I1); include cycles refused by the guarded worklist (T1); banned INCLUDE touches no file (B2); stray INCLUDE parameters and empty included files are diagnostics (N1, U1). That the validator rejects exactly the bad names is a for-all-strings property and is not decided.",
+      TB, "DESIGN.md §4 C08")
+claim("C09", "static analysis: format-string injectivity rule for map key texts, constructor/key agreement, serialisation coverage",
+      "Decides: injective key text of structured map keys (J1: known finding F12 for JSON-RPC ids), key == id the interaction was built from (ID1), total serialisation switches (X1), mutual tag/interaction registration (TG), every model field serialised (M1), one entry per key in insertion order (D4). UTF-8 validity, indented==compact and used-type existence beyond the library's own rejection are not decided.",
+      TB, "DESIGN.md §4 C09")
+claim("C12", "static analysis: must-dataflow guard on Unshift, alias-based who-may-mutate rule for base types, effect-memo rule",
+      "Decides: each inherited property inserted at most once and never over an own property (H1/Unshift), base types never written through (IM1), the per-run memo carries no caller-owned accumulator (E3ii: known finding F13), notation typestate (N2), guarded allOf recursion (T1). Order and transitive completeness of inherited properties are not decided.",
+      TB, "DESIGN.md §4 C12")
+claim("C13", "static analysis: stage-order dominance and must-dataflow guards around the path-parameter binding",
+      "Decides: duplicate parameter per prefix refused before insert (H1), Path schemas read only after the flat-object check succeeded and leftover properties rejected (PS1), non-JSight Path body is a diagnostic (N2), deterministic message (D1), similar-paths check on every path-registering handler (CK1). The prefix/name splitting and the binding itself are string logic and not decided.",
+      TB, "DESIGN.md §4 C13")
+claim("C15", "static analysis: who-may-call + dominance rule for description setters, single-normaliser rule for annotation stores, shared-table rule",
+      "Decides: descriptions reach the catalog only from the Description handler after the normaliser succeeded and the result was non-empty, for all four hosts (DN1); every annotation/note store takes the one normaliser's result (AN1); the description look-ahead and the keyword lookup read one table (K2p). The normal form itself and idempotence are string semantics and not decided.",
+      TB, "DESIGN.md §4 C15")
+claim("C19", "static analysis: sibling-agreement rule for the two interaction creators, provenance rule for tag values, order of source tests",
+      "Decides: both creators resolve tags with the same id, append every name, no exit between registering and storing (TG1); tags come only from the Tags collection (TG2); at least one tag (TG3); unique declared tags and reused path tag (H1); precedence own > URL > automatic by the order of the source tests (TP1). Injectivity of the automatic tag name and titles are not decided.",
+      TB, "DESIGN.md §4 C19")
+claim("C20", "static analysis: memo-soundness rules (value footprint, effect accumulator), reject-only use of run-wide sets, global-state rules",
+      "Decides: cached values depend on nothing their key omits (E3i: known finding F11), visited sets carry no caller-owned accumulator (E3ii: known finding F13), run-wide uniqueness/visited sets influence a run only by rejecting or skipping (NI), no package-level or option-shared state (G2, OP1). Coupling through the schema library's objects and entry-by-entry equality are not decided.",
+      TB, "DESIGN.md §4 C20")
